@@ -32,6 +32,16 @@ static IN_CASE: AtomicBool = AtomicBool::new(false);
 pub static CUR_IDX: AtomicU64 = AtomicU64::new(0);
 pub static PROGRESS: AtomicU64 = AtomicU64::new(0);
 
+/// Allocation calls made so far by this process (monotonic).
+pub fn allocs_now() -> u64 {
+    ALLOCS.load(Relaxed)
+}
+
+/// Bytes requested so far by this process (monotonic).
+pub fn bytes_now() -> u64 {
+    BYTES.load(Relaxed)
+}
+
 fn raw_num(buf: &mut [u8; 24], mut n: u64) -> &[u8] {
     let mut i = buf.len();
     if n == 0 {
